@@ -190,6 +190,7 @@ async fn run_async(ctx: &mut Ctx, which: Which) {
     let mut sleep: Option<Pin<Box<tokio::time::Sleep>>> = None;
     let mut sleep_for = u64::MAX;
     let mut datagrams = 0u64;
+    let mut last_tx: BTreeMap<(usize, SocketAddr), u64> = BTreeMap::new();
 
     'main: loop {
         steps += 1;
@@ -257,6 +258,7 @@ async fn run_async(ctx: &mut Ctx, which: Which) {
         match w {
             W::D(from, (dst, dst_id, bytes)) => {
                 datagrams += 1;
+                last_tx.insert((from, dst), now_ms());
                 // wire monitors
                 let dec = toolkit::decode_packet(&dst_id, &bytes).ok();
                 if bytes.len() > 1280 {
@@ -462,7 +464,13 @@ async fn run_async(ctx: &mut Ctx, which: Which) {
     if which.c13 && !ctx.failed() && calls.iter().all(|c| c.3.is_finished()) {
         for (i, nd) in nodes.iter().enumerate() {
             if let Some(ep) = nd.ep.as_ref() {
-                let ex: BTreeMap<SocketAddr, usize> = ep.expected_responses.read().iter().map(|(k, v)| (*k, *v)).collect();
+                let mut ex: BTreeMap<SocketAddr, usize> = ep.expected_responses.read().iter().map(|(k, v)| (*k, *v)).collect();
+                // premise of the clause, per address: nothing was (re)transmitted to it for a full timeout period
+                let before = ex.len();
+                ex.retain(|a, _| last_tx.get(&(i, *a)).map(|t| *t + nd.timeout_ms + 2 < t_end).unwrap_or(true));
+                if ex.len() != before {
+                    ctx.count("horizon_address_not_quiescent");
+                }
                 if !ex.is_empty() {
                     ctx.fail("c13.exemption-leak", format!("n{i}: exemptions {ex:?} remain at quiescence (full stack, all API calls returned, {}ms after the last fault)", t_end.saturating_sub(stop_ms)), &["full-stack"]);
                     break;
